@@ -475,6 +475,13 @@ def unapplied_scan(cx):
             cx.check(len(inits) == 1 and inits[0].get("ty") == "bool" and inits[0].get("val", {}).get("int") == 0, name + ":flag-init", "the flag starts out false and the scanning function itself never assigns it again")
             fg = cx.pg(f)
             for lits, v, b in fg.returns():
+                if v == ("bool", False):
+                    # the only shortcut: nothing is unapplied
+                    okf = any(l[0] == "is" and l[2] is False and l[1][0] == "bin" and l[1][1] == "Lt" and is_f(l[1][2], "RaftLog.applied") and is_f(l[1][3], "RaftLog.committed") for l in lits) or \
+                        any(l[0] == "is" and l[2] is True and l[1][0] == "bin" and l[1][1] in ("Lt", "Eq") and is_f(l[1][2], "RaftLog.committed") and is_f(l[1][3], "RaftLog.applied") for l in lits) or \
+                        any(l[0] == "is" and l[2] is True and l[1][0] == "bin" and l[1][1] == "Eq" and is_f(l[1][2], "RaftLog.applied") and is_f(l[1][3], "RaftLog.committed") for l in lits)
+                    cx.check(okf, name + ":shortcut", "the scan is skipped only when applied >= committed (found %s)" % "; ".join(show_lit(l)[:80] for l in lits)[:200], sc)
+                    n += 1
                 if any(l[0] == "in" and l[1][0] == "call" and l[1][1].endswith(cx.sfx("RaftLog::scan")) for l in lits):
                     cx.check(v[0] == "local" and v[1] == L, name + ":result", "after the scan the function returns the flag (found %s)" % show(v), sc)
                     n += 1
